@@ -79,7 +79,8 @@ Definition ref_establish (r : rstate) (now : Z) (tag addr : str) (fo : full_ok) 
                            end)
             (raw_cmds (f_valid fo))
             {| r_sessions := (client_entry now tag addr fo, cmds_of (f_valid fo)) :: rdel (f_sid fo) (r_sessions r);
-               r_routes := r_routes r |}.
+               r_routes := filter (fun kv => negb (bytes_eqb (snd kv) (f_sid fo))) (r_routes r) |}.
+            (* a session registered under an id takes over the id: routes to an earlier holder go *)
 
 (* a session is dropped: it and every route to it go *)
 Definition ref_drop (r : rstate) (id : str) : rstate :=
@@ -154,23 +155,12 @@ Definition wf_event (e : event) : Prop :=
   | _ => True
   end.
 
-(* ids the cache still refers to *)
-Definition used (c : cache) : list str := map e_id (c_sessions c) ++ map snd (c_cmdmap c).
-
-(* a server never announces, for a new session, an id the client cache still refers to *)
-Definition fresh_event (st : cache * Z) (e : event) : Prop :=
-  match e with
-  | EHandshake t a cmd p =>
-      client_action (fst st) (snd st) [] t a cmd = AFull ->
-      match on_full p with FOk fo => ~ In (f_sid fo) (used (fst st)) | FFail => True end
-  | _ => True
-  end.
-
 Fixpoint good_from (st : cache * Z) (h : list event) : Prop :=
   match h with
   | [] => True
-  | e :: r => wf_event e /\ fresh_event st e /\ good_from (step st e) r
+  | e :: r => wf_event e /\ good_from (step st e) r
   end.
+(* the only side condition: tags, addresses and commands are comma-free *)
 Definition good (h : list event) : Prop := good_from (empty_cache, 0) h.
 
 (* the image of a reference state under the key encoding *)
